@@ -12,7 +12,7 @@ from ..fgmodel import GeoHooks, build_fullgrid, FG
 from ..spterm import underlying, show
 from ..rules.layout import block_diag
 from ..rules.fold import check_fold
-from ..model import AnalysisError, src
+from ..model import AnalysisError, src, norm_stmt
 
 META = {
     "explanation": "FullGrid._get_N_N (through the three public getters) and get_total_volumes are interpreted abstractly over the "
@@ -491,6 +491,162 @@ def cartesian_zero_borders(ctx, repo):
         ctx.ok("DEG", "C02.cartesian.border.positive", "no constant zero is written as a Cartesian face area", f.where)
 
 
+def _append_counts(stmts, name):
+    """set of possible numbers of `name.append(..)` executed by one pass through `stmts` (None in the set: not summarised)"""
+    def seq(body, k0):
+        cur = {k0}
+        for st in body:
+            nxt = set()
+            for k in cur:
+                if k is None or isinstance(k, tuple):
+                    nxt.add(k)
+                    continue
+                if isinstance(st, ast.If):
+                    nxt |= seq(st.body, k) | seq(st.orelse, k)
+                elif isinstance(st, (ast.Continue, ast.Break, ast.Return, ast.Raise)):
+                    nxt.add(("exit", k))
+                elif isinstance(st, (ast.For, ast.While, ast.Try, ast.With)):
+                    touches = any(isinstance(c, ast.Call) and isinstance(c.func, ast.Attribute) and c.func.attr in ("append", "extend", "insert")
+                                  and isinstance(c.func.value, ast.Name) and c.func.value.id == name for c in ast.walk(st))
+                    nxt.add(None if touches else k)
+                else:
+                    n_app = sum(1 for c in ast.walk(st) if isinstance(c, ast.Call) and isinstance(c.func, ast.Attribute) and
+                                c.func.attr == "append" and isinstance(c.func.value, ast.Name) and c.func.value.id == name)
+                    other = any(isinstance(c, ast.Call) and isinstance(c.func, ast.Attribute) and c.func.attr in ("extend", "insert", "pop", "remove")
+                                and isinstance(c.func.value, ast.Name) and c.func.value.id == name for c in ast.walk(st))
+                    nxt.add(None if other else k + n_app)
+            cur = nxt
+        return cur
+    out = set()
+    for k in seq(stmts, 0):
+        out.add(k[1] if isinstance(k, tuple) else k)
+    return out
+
+
+def cartesian_parallel(ctx, repo, pid="C02"):
+    """PAIR: in the Cartesian position mode the border matrix is the adjacency matrix with `.data` replaced.  Entry e of the new data
+    belongs to pair (row[e], col[e]) only if the areas are emitted one per stored entry, in storage order: one polygon per iteration of
+    the loop over zip(S.row, S.col), one area per polygon, the whole list assigned."""
+    pg = repo.cls(FG, "PositionGrid")
+    f = pg.methods.get("get_cartesian_surfaces")
+    g = pg.methods.get("_get_coordinates_of_border_polygons")
+    ctx.instance("PAIR")
+    tag = f"{pid}.cartesian.border.parallel"
+    if f is None:
+        ctx.inconclusive("PAIR", tag, "anchor vanished: PositionGrid.get_cartesian_surfaces", FG)
+        return
+    ctx.analysed(f)
+    data_assign = [n for n in ast.walk(f.node) if isinstance(n, ast.Assign) and isinstance(n.targets[0], ast.Attribute) and n.targets[0].attr == "data"]
+    if len(data_assign) != 1:
+        ctx.inconclusive("PAIR", tag, "construction of the Cartesian border data not recognised", f.where)
+        return
+    v = data_assign[0].value
+    if isinstance(v, ast.Call) and repo.dotted_of(f.module, v.func) in ("numpy.array", "numpy.asarray") and len(v.args) == 1:
+        v = v.args[0]
+    # recognised-wrong form: areas computed for one triangle and copied to the other through np.lexsort with the ROW index of the
+    # receiving entries as primary (= last) key.  Entries of one triangle taken in (row, col) order are mirrored by the entries of the
+    # other triangle in (col, row) order, so the primary key of the receiving side must be its COLUMN index.
+    sd = {}
+    for n in ast.walk(f.node):
+        if isinstance(n, ast.Assign) and len(n.targets) == 1:
+            t = n.targets[0]
+            if isinstance(t, ast.Name):
+                sd.setdefault(t.id, []).append(n.value)
+            elif isinstance(t, ast.Tuple) and isinstance(n.value, ast.Tuple) and len(t.elts) == len(n.value.elts):
+                for a_, b_ in zip(t.elts, n.value.elts):
+                    if isinstance(a_, ast.Name):
+                        sd.setdefault(a_.id, []).append(b_)
+
+    def role(e, depth=0):
+        if isinstance(e, ast.Subscript):
+            return role(e.value, depth)
+        if isinstance(e, ast.Attribute) and e.attr in ("row", "col"):
+            return e.attr
+        if isinstance(e, ast.Name) and depth < 4 and len(sd.get(e.id, [])) == 1:
+            return role(sd[e.id][0], depth + 1)
+        return None
+    for c in ast.walk(f.node):
+        if isinstance(c, ast.Call) and repo.dotted_of(f.module, c.func) == "numpy.lexsort" and len(c.args) == 1 and \
+                isinstance(c.args[0], (ast.Tuple, ast.List)) and len(c.args[0].elts) == 2:
+            r0, r1 = role(c.args[0].elts[0]), role(c.args[0].elts[1])
+
+            def triangle(e, depth=0):
+                """the key is restricted to the entries of one triangle: its index derives from a comparison of row and column indices"""
+                if isinstance(e, ast.Name) and depth < 4 and len(sd.get(e.id, [])) == 1:
+                    return triangle(sd[e.id][0], depth + 1)
+                return any(isinstance(x, ast.Compare) and len(x.ops) == 1 and isinstance(x.ops[0], (ast.Lt, ast.Gt, ast.LtE, ast.GtE)) and
+                           {role(x.left), role(x.comparators[0])} == {"row", "col"} for x in ast.walk(e))
+            tri = all(isinstance(k_, ast.Subscript) and triangle(k_.slice) for k_ in c.args[0].elts)
+            if (r0, r1) == ("col", "row") and tri:
+                ctx.violate("PAIR", tag, "Cartesian borders: areas of one triangle are copied to the other triangle in np.lexsort order with the "
+                            "ROW index as primary key (the last key of np.lexsort is the primary one): that is the storage order of the "
+                            "receiving entries, not the order of their mirror images (col, row), so entry (j,i) receives the area of a "
+                            "different pair than (i,j) and the border matrix is no longer symmetric", f.where, src(c)[:160],
+                            witness="np.lexsort((cols[..], rows[..])) sorts by rows first")
+                return
+    if not isinstance(v, ast.Name):
+        ctx.inconclusive("PAIR", tag, "the new border data are not a plain list of areas", f.where, witness=src(data_assign[0])[:160])
+        return
+    lname = v.id
+    defs = [n for n in ast.walk(f.node) if isinstance(n, ast.Assign) and any(isinstance(t, ast.Name) and t.id == lname for t in n.targets)]
+    loops = [n for n in f.node.body if isinstance(n, ast.For) and any(isinstance(c, ast.Call) and isinstance(c.func, ast.Attribute) and
+             c.func.attr == "append" and isinstance(c.func.value, ast.Name) and c.func.value.id == lname for c in ast.walk(n))]
+    comp = None
+    def _is_getter_call(e):
+        return isinstance(e, ast.Call) and isinstance(e.func, ast.Attribute) and isinstance(e.func.value, ast.Name) and \
+            e.func.value.id == "self" and e.func.attr == "_get_coordinates_of_border_polygons" and not e.args and not e.keywords
+    if len(defs) == 1 and isinstance(defs[0].value, ast.ListComp) and len(defs[0].value.generators) == 1 and not loops and \
+            (isinstance(defs[0].value.generators[0].iter, ast.Name) or _is_getter_call(defs[0].value.generators[0].iter)):
+        comp = defs[0].value            # the comprehension form of the same loop (also produced by the AST normal form)
+    if comp is None and (len(defs) != 1 or not (isinstance(defs[0].value, ast.List) and not defs[0].value.elts) or len(loops) != 1 or
+                         not (isinstance(loops[0].iter, ast.Name) or _is_getter_call(loops[0].iter))):
+        ctx.inconclusive("PAIR", tag, "the list of areas is not filled by one loop over the polygons", f.where,
+                         witness=src(data_assign[0])[:160])
+        return
+    others = [c for n in f.node.body if not (loops and n is loops[0]) for c in ast.walk(n) if isinstance(c, ast.Call) and isinstance(c.func, ast.Attribute) and
+              isinstance(c.func.value, ast.Name) and c.func.value.id == lname and c.func.attr in ("append", "extend", "insert", "pop", "remove",
+                                                                                                     "sort", "reverse")]
+    piter = comp.generators[0].iter if comp is not None else loops[0].iter
+    pname = piter.id if isinstance(piter, ast.Name) else "<call>"
+    pdefs = [n for n in ast.walk(f.node) if isinstance(n, ast.Assign) and any(isinstance(t, ast.Name) and t.id == pname for t in n.targets)]
+    from_getter = _is_getter_call(piter) or (len(pdefs) == 1 and _is_getter_call(pdefs[0].value))
+    if others or not from_getter or g is None:
+        ctx.inconclusive("PAIR", tag, "the polygons are not taken unchanged from _get_coordinates_of_border_polygons()", f.where,
+                         witness=src(pdefs[0])[:160] if pdefs else pname)
+        return
+    ctx.analysed(g)
+    c1 = ({0, 1} if comp.generators[0].ifs else {1}) if comp is not None else _append_counts(loops[0].body, lname)
+    # generator: one polygon per stored entry
+    rets = [n for n in ast.walk(g.node) if isinstance(n, ast.Return) and n.value is not None]
+    gl = [n for n in g.node.body if isinstance(n, ast.For)]
+    ok_iter = False
+    mat = None
+    if len(rets) == 1 and isinstance(rets[0].value, ast.Name) and len(gl) == 1:
+        it = gl[0].iter
+        if isinstance(it, ast.Call) and isinstance(it.func, ast.Name) and it.func.id == "zip" and len(it.args) == 2 and \
+                all(isinstance(a, ast.Attribute) and isinstance(a.value, ast.Name) for a in it.args) and \
+                [a.attr for a in it.args] == ["row", "col"] and it.args[0].value.id == it.args[1].value.id:
+            mat = it.args[0].value.id
+            mdefs = [n for n in ast.walk(g.node) if isinstance(n, ast.Assign) and any(isinstance(t, ast.Name) and t.id == mat for t in n.targets)]
+            tdefs = [n for n in ast.walk(f.node) if isinstance(n, ast.Assign) and isinstance(data_assign[0].targets[0].value, ast.Name) and
+                     any(isinstance(t, ast.Name) and t.id == data_assign[0].targets[0].value.id for t in n.targets)]
+            ok_iter = len(mdefs) == 1 and len(tdefs) == 1 and norm_stmt(mdefs[0].value) == norm_stmt(tdefs[0].value)
+    if not ok_iter:
+        ctx.inconclusive("PAIR", tag, "the polygon generator does not walk zip(S.row, S.col) of the matrix whose data are replaced", g.where)
+        return
+    c2 = _append_counts(gl[0].body, rets[0].value.id)
+    if c1 == {1} and c2 == {1}:
+        ctx.ok("PAIR", tag, "Cartesian borders: one polygon per stored adjacency entry (storage order), one area per polygon, the whole "
+               "list becomes `.data`: entry e carries the face of pair (row[e], col[e]), and (i,j)/(j,i) get the same polygon", f.where)
+    elif None in c1 or None in c2:
+        ctx.inconclusive("PAIR", tag, "number of areas / polygons emitted per stored entry not derived", f.where, witness=f"areas {sorted(map(str, c1))}, polygons {sorted(map(str, c2))}")
+    else:
+        ctx.violate("PAIR", tag, "Cartesian borders: the areas are no longer emitted one per stored adjacency entry (an entry is skipped or "
+                    "emitted twice on some path) while the whole list is assigned as `.data`: from the first skipped entry on every area "
+                    "belongs to another pair than (row[e], col[e])", f.where if c1 != {1} else g.where, "all_areas_data.append(...)",
+                    witness=f"areas per polygon: {sorted(c1)}, polygons per stored entry: {sorted(c2)}")
+
+
 def run(ctx, repo, tier):
     for nb_ctx in ("sym", "one") + ((2, 3) if tier == "thorough" else ()):
         for prop in GETTERS:
@@ -508,6 +664,7 @@ def run(ctx, repo, tier):
         ctx.check(vals == [prop], "DISPATCH", f"C02.getter.{g}", f"{g} selects property {prop!r}", m.where, witness=str(vals))
     volumes_check(ctx, repo, "C02")
     cartesian_zero_borders(ctx, repo)
+    cartesian_parallel(ctx, repo, "C02")
     # ------------------------------------------------------------ inherited: the position matrix P itself (C05): the Kronecker lift above keeps
     # symmetry / one common pattern only if P has them
     from ..driver import PrefixCtx
